@@ -48,6 +48,31 @@ class Ledger:
         for k, n in newc.items():
             if n > oldc.get(k, 0):
                 self.authors.setdefault(k, set()).add(who)
+        self._crossed_by_common_lines(split_lines(old), split_lines(new), who)
+
+    def _crossed_by_common_lines(self, old_lines, new_lines, who):
+        """A kept line X over which a blank line (or a line made of common tokens only) has moved - one copy fewer on
+        one side of X and one more on the other - can equally well be read by a diff as 'X deleted and written again':
+        matching the common line instead of X is an equally long common subsequence. The editor is then an acceptable
+        author of X (the diff's freedom, as for duplicated lines)."""
+        o = [norm(x) for x in old_lines]
+        n = [norm(x) for x in new_lines]
+        has_uid = {norm(x): bool(_uid.search(x)) for x in list(old_lines) + list(new_lines)}
+        common = {k for k in set(o) & set(n) if k == "" or not has_uid.get(k)}
+        if not common:
+            return
+        opos = {k: i for i, k in enumerate(o)}
+        npos = {k: i for i, k in enumerate(n)}
+        for k in set(opos) & set(npos):
+            if k in common or o.count(k) != 1 or n.count(k) != 1:
+                continue
+            i, j = opos[k], npos[k]
+            for b in common:
+                ob, oa = o[:i].count(b), o[i + 1:].count(b)
+                nb, na = n[:j].count(b), n[j + 1:].count(b)
+                if (nb > ob and na < oa) or (nb < ob and na > oa):
+                    self.authors.setdefault(k, set()).add(who)
+                    break
 
     def ws_change_of_committed(self, old, new, committed, who):
         """`who` changed only the whitespace of lines that are already committed: git blame will
